@@ -77,6 +77,20 @@ class Target:
             acc = acc + float(x[j])
         return acc
 
+    def blob_vec(self, x):
+        """all blob components of the current mode (one for 'blobs', two for 'blobs2')"""
+        if self.mode == "blobs2":
+            return [self.blob_row(x), 2.0 * float(x[self.d - 1]) - 1.0]
+        return [self.blob_row(x)]
+
+    def loglike_blobs2(self, x):
+        self.n_calls += 1
+        self.n_points += 1
+        v = self.ll_row(x)
+        self.n_finite += int(math.isfinite(v))
+        b = self.blob_vec(x)
+        return v, b[0], b[1]
+
     # ---- what the sampler calls
     def loglike_vector(self, x):
         x = np.asarray(x, dtype=float)
@@ -102,13 +116,14 @@ class Target:
 
     @property
     def loglike(self):
-        return {"vector": self.loglike_vector, "scalar": self.loglike_scalar, "blobs": self.loglike_blobs}[self.mode]
+        return {"vector": self.loglike_vector, "scalar": self.loglike_scalar, "blobs": self.loglike_blobs,
+                "blobs2": self.loglike_blobs2}[self.mode]
 
     def sampler_kwargs(self):
         kw = {"prior_transform": self.pt, "log_likelihood": self.loglike, "n_dim": self.d}
         if self.mode == "vector":
             kw["vectorize"] = True
-        if self.mode == "blobs":
+        if self.mode in ("blobs", "blobs2"):
             kw["blobs_dtype"] = "float"
         return kw
 
